@@ -7,6 +7,7 @@
    expired = (sp <= n).  Theorems of part A hold for every [Time] instance, hence
    for the binary64 instance the correspondence runs; part B needs [TimeLaws];
    part C is over exact time (Z). *)
+From Coq Require Import PrimFloat.
 From Hio Require Import Base.Prelude Base.Time Model.Timers Proofs.TimersProofs.
 
 (* ============================== A. every Time instance (also binary64) *)
@@ -152,6 +153,45 @@ Theorem C08_mono_monotone : forall (s : mono Z) (c : clock Z) (ops : list (mop Z
 Proof. intros. apply (m_mono_gen ops s c None false 0); [exact I|discriminate]. Qed.
 Print Assumptions C08_mono_monotone.
 
+(* MonoTimer while the clock does not go back reads exactly like Timer:
+   elapsed = now - start, remaining = stop - now, expired = (stop <= now). *)
+Theorem C08_mono_forward_exact : forall (s : mono Z) r c k,
+  m_last s <= r -> k <> RDuration ->
+  m_step s (r :: c) (MRead k) =
+    ({| m_start := m_start s; m_stop := m_stop s; m_last := r; m_retro := m_retro s |}, c,
+     Ok (report k (m_start s) (m_stop s) r)).
+Proof. exact m_forward_exact. Qed.
+Print Assumptions C08_mono_forward_exact.
+
+(* MonoTimer (retro=True) closed form: after `latest` has consumed ANY readings
+   rs, elapsed has grown by exactly the total forward movement [fwd] of the
+   clock (backward steps contribute 0), and the duration is unchanged. *)
+Theorem C08_mono_elapsed_closed_form : forall rs (s : mono Z),
+  m_retro s = true ->
+  let s' := m_final s rs (repeat MLatest (length rs)) in
+  el s' = el s + fwd (m_last s) rs /\ du s' = du s /\ m_last s' = last rs (m_last s) /\ m_retro s' = true.
+Proof. exact m_elapsed_closed_form. Qed.
+Print Assumptions C08_mono_elapsed_closed_form.
+
+(* ============================== D. expired is latched wherever + is monotone *)
+
+(* "expired never reverts to False" does not need exact arithmetic: in every
+   Time instance where <= is transitive, a <= b -> a + c <= b + c, and
+   not (d < 0) -> a <= a + d  (class AddMono: Z below; round-to-nearest binary64
+   away from nan/inf also has these, which is why the oracle checks the latch on
+   all finite float cases, not only dyadic ones), for ANY state, clock script
+   and op sequence, within a period expired once True stays True. *)
+Theorem C08_mono_expired_latched : forall (T : Type) (TI : Time T) (AM : AddMono T)
+    (s : mono T) (c : clock T) (ops : list (mop T)),
+  latch_ok false (combine ops (m_obs s c ops)).
+Proof. intros. apply m_latch_gen. discriminate. Qed.
+Print Assumptions C08_mono_expired_latched.
+
+Theorem C08_mono_expired_latched_Z : forall (s : mono Z) (c : clock Z) (ops : list (mop Z)),
+  latch_ok false (combine ops (m_obs s c ops)).
+Proof. intros. apply m_latch_gen. discriminate. Qed.
+Print Assumptions C08_mono_expired_latched_Z.
+
 (* ============================== non-vacuity *)
 
 Example C08_example_tymer :
@@ -182,3 +222,33 @@ Example C08_example_mono_noretro :
   let '(s, c) := @m_init Z ZTime [100; 100; 102; 99; 103] 4 None false in
   m_obs s c [MRead RElapsed; MRead RElapsed; MRead RElapsed] = [Ok (VT 2); Exc OtherErr; Ok (VT 3)].
 Proof. vm_compute. reflexivity. Qed.
+
+(* ============================== residue: binary64 (documented, not findings) *)
+Local Close Scope Z_scope.
+
+(* B does not transfer to floats: Tymer(start=0.30000000000000004, duration=0.1)
+   has duration 0.09999999999999998 (= _stop - _start), which is what a default
+   restart() carries on.  The correspondence reproduces this bit for bit. *)
+Example C08_float_residue_duration :
+  let s := @y_init fl FTime None (Some 0x1.999999999999ap-4%float) (Some 0x1.3333333333334p-2%float) in
+  map fst (y_run s [(None, YRead RDuration); (None, YRestart None); (None, YRead RDuration)])
+  = [Ok (VT 0x1.9999999999998p-4%float); Ok (VT 0x1.999999999999ap-2%float); Ok (VT 0x1.9999999999998p-4%float)].
+Proof. vm_compute. reflexivity. Qed.
+
+(* C08_mono_monotone does not transfer to floats: shifting _start and _last by
+   the same rounded delta can move elapsed by one ulp.  Clock 0.1, 0.1, 0.8-, 0.9-,
+   0.5667, 0.2667: elapsed reads 0.7, 0.7999999999999999, 0.7999999999999999,
+   0.7999999999999998. *)
+Example C08_float_residue_mono :
+  let '(s, c) := @m_init fl FTime [0x1.999999999999ap-4; 0x1.999999999999ap-4; 0x1.9999999999999p-1;
+                                    0x1.cccccccccccccp-1; 0x1.2222222222222p-1; 0x1.1111111111111p-2]%float
+                                   1%float None true in
+  m_obs s c [MRead RElapsed; MRead RElapsed; MRead RElapsed; MRead RElapsed]
+  = [Ok (VT 0x1.6666666666666p-1%float); Ok (VT 0x1.9999999999999p-1%float);
+     Ok (VT 0x1.9999999999999p-1%float); Ok (VT 0x1.9999999999998p-1%float)].
+Proof. vm_compute. reflexivity. Qed.
+
+(* outside the property, recorded because the model is faithful to it:
+   MonoTimer.remaining evaluates `self._stop - self.latest` left to right, so on
+   the read that detects a retrograde it uses the un-shifted _stop and reports
+   |delta| too much (9 instead of 2 in C08_example_mono above). *)
